@@ -208,10 +208,13 @@ CHECKS = {
             "the part at any path receives an image of a conforming value of the same size and nothing else changes, a view of the "
             "whole object reads the value with exactly that part replaced - `setAt` - and keeps its size) and C10_assign_part_by_copy "
             "(the same for the binary copy of an existing object that `_update` performs); partAt / setAt are executed against the "
-            "library on every accepted equal-size whole-part assignment of the reference-free stream. C10_node_update (reference-graph proof model, component rg): `_update` of a node from a node "
+            "library on every accepted equal-size whole-part assignment of the reference-free stream. C10_array_update_value (a "
+            "whole-array assignment of ANY fitting size - model Lay.updateArr = Array._update, executed on every whole-array assignment - "
+            "reads back as exactly the assigned items in the assigned shape; the instance keeps its size word). C10_node_update (reference-graph proof model, component rg): `_update` of a node from a node "
             "of the same class allocates nothing, makes the fields agree (references: the same referents), keeps the reference-graph "
             "invariant - no reference of any other node is disturbed.",
-            "Partial: whole-part assignments of ANOTHER size that still fit (strings into their capacity: C11 theorems), the dict / "
+            "Partial: whole-STRUCT assignments of another size that still fit (strings into their capacity: C11 theorems; arrays: "
+            "C10_array_update_value), the dict / "
             "item-wise form of a compound assignment (it writes the same image, but that is tie + oracle, not a theorem) and paths "
             "through references are byte-level theorems + tie + oracle; "
             "assignments interleaved with buffer growth rest on C04 (bytes preserved) + C01_read_local; known finding O-30 (earlier "
